@@ -11,7 +11,10 @@ RULE = (
     "a drawn subset, schedule seed); definitions are generated from the "
     "block grammar of DESIGN.md 2.2 (<=16 event types, depth <=3, nested "
     "loops, breaks, detach, bunched merges, several start events, exotic "
-    "names) or taken from the 63 corpus files. The jobs are produced by the "
+    "names) or taken from the 63 corpus files; plus two families that are "
+    "enumerated completely on every run: 1000 loop/break shapes (complete "
+    "sets) and every proper subset of the jobs of four small plain OR forks "
+    "(partial views). The jobs are produced by the "
     "reference semantics, learned by the real pv_to_puml_string under a step "
     "bound, and each input job must be accepted by the emitted diagram "
     "(reference acceptor). Non-trivial: the definition has a fork or loop "
@@ -92,7 +95,16 @@ def run_shard(ctx):
             except Violation as v:
                 ctx.violation(case, str(v))
                 return
-    # exhaustive loop/break family (832 definitions, complete sets, k=2)
+    # exhaustive partial views of plain OR forks
+    for tag, case in pvcase.partial_or_cases(ctx.shard, ctx.nshards,
+                                             ctx.tier):
+        ctx.count("partial_or_views_enumerated")
+        try:
+            run_case(case, ctx)
+        except Violation as v:
+            ctx.violation(case, f"[partial view of {tag}] " + str(v))
+            return
+    # exhaustive loop/break family (1000 definitions, complete sets, k=2)
     for tag, case in pvcase.loop_shape_cases(ctx.seed, ctx.shard,
                                              ctx.nshards):
         ctx.count("loop_shapes_enumerated")
